@@ -232,7 +232,16 @@ func Run(bodies []func() any, prefix []int, stepTimeout time.Duration) (*Exec, e
 		running = enabled[choice]
 		r.current = running
 		r.threads[running].cond = nil
-		r.threads[running].resume <- struct{}{}
+		// (a goroutine the scheduler does not own - started by the code under test outside a controlled
+		// execution - may have stolen the thread's place at a scheduling point: then nobody receives here)
+		select {
+		case r.threads[running].resume <- struct{}{}:
+		case <-time.After(stepTimeout):
+			x.Hung = true
+			x.HungSite = lastSite + " (the chosen thread did not take the baton: a goroutine outside the scheduler's control reached a scheduling point?)"
+			Tainted = true
+			return x, nil
+		}
 		// one timer per execution, re-armed for every step (a time.After per step leaves millions of
 		// pending timers behind: they are only released when they fire)
 		if !timer.Stop() {
